@@ -398,10 +398,25 @@ impl ProcfsHandle {
         // NOTE: There is technically a race here, but it relies the target path
         //       being a magic-link and then another thing being mounted on top.
         //       This is the same race as below.
-        let link_target = match self.readlink(base, subpath) {
-            Ok(target) => target,
-            Err(_) => return self.open(base, subpath, oflags).map(File::from),
-        };
+        //
+        // Whether it is a symlink is decided by looking at the component
+        // itself. A failure to get at it is reported as such: treating every
+        // readlink error as "not a symlink" would turn a transient failure
+        // (ENOMEM, EMFILE, ...) into an O_NOFOLLOW open, which for O_PATH
+        // requests "succeeds" with a handle to the link instead of its target.
+        let link = self.open(base, subpath, OpenFlags::O_PATH)?;
+        let link_meta = link.metadata().map_err(|err| ErrorImpl::OsError {
+            operation: "fstat final component of procfs path".into(),
+            source: err,
+        })?;
+        if !link_meta.is_symlink() {
+            return self.open(base, subpath, oflags).map(File::from);
+        }
+        let link_target = syscalls::readlinkat(&link, "").map_err(|err| ErrorImpl::RawOsError {
+            operation: "read procfs magiclink".into(),
+            source: err,
+        })?;
+        drop(link);
 
         // Ordinary procfs symlinks (self, thread-self, net, mounts, ...) have a
         // relative target inside procfs. Following them with a plain openat(2)
